@@ -1,0 +1,41 @@
+//go:build verif
+
+/*
+ Licensed to the Apache Software Foundation (ASF) under one
+ or more contributor license agreements.  See the NOTICE file
+ distributed with this work for additional information
+ regarding copyright ownership.  The ASF licenses this file
+ to you under the Apache License, Version 2.0 (the
+ "License"); you may not use this file except in compliance
+ with the License.  You may obtain a copy of the License at
+
+     http://www.apache.org/licenses/LICENSE-2.0
+
+ Unless required by applicable law or agreed to in writing, software
+ distributed under the License is distributed on an "AS IS" BASIS,
+ WITHOUT WARRANTIES OR CONDITIONS OF ANY KIND, either express or implied.
+ See the License for the specific language governing permissions and
+ limitations under the License.
+*/
+
+package scheduler
+
+import (
+	"github.com/apache/yunikorn-core/pkg/scheduler/objects"
+)
+
+// Verification hooks (build tag "verif" only) for the concurrent stress engine: the periodic
+// background work of the Scheduler service callable on a ClusterContext created by VerifNewCore.
+// Nothing here changes behaviour.
+
+// VerifOutstandingRequests is the partition part of Scheduler.inspectOutstandingRequests.
+func (pc *PartitionContext) VerifOutstandingRequests() []*objects.Allocation {
+	return pc.calculateOutstandingRequests()
+}
+
+// VerifQuotaPreemption is the partition part of Scheduler.triggerQuotaPreemption.
+func (pc *PartitionContext) VerifQuotaPreemption() {
+	if pc.IsQuotaPreemptionEnabled() {
+		pc.root.TryQuotaPreemption()
+	}
+}
